@@ -1,2 +1,9 @@
-import Adsg.Proofs.Closure
-#print axioms Adsg.mem_closure_iff_reach
+import Adsg.Props.C04
+#print axioms Adsg.C04.design_valid
+#print axioms Adsg.C04.design_complete
+#print axioms Adsg.C04.allDesigns_nodup
+#print axioms Adsg.C04.design_ext
+#print axioms Adsg.C04.nValid_eq_formula
+#print axioms Adsg.C04.repAssigns_rows
+#print axioms Adsg.C04.repAssigns_admissible
+#print axioms Adsg.C04.declared_product
